@@ -1172,7 +1172,7 @@ def accepted_means_handed_on(ctx) -> None:
     for name, fi in sorted(r.methods.items()):
         if not name.startswith("gn_data_request"):
             continue
-        k_acc = -1
+        sites, good_atoms = [], set()
         for ret in sorted([n for n in ast.walk(fi.node) if isinstance(n, ast.Return) and n.value is not None], key=lambda n: n.lineno):
             v = ret.value
             if not (isinstance(v, ast.Call) and (dotted(v.func) or "").endswith("GNDataConfirm")):
@@ -1181,8 +1181,7 @@ def accepted_means_handed_on(ctx) -> None:
             if not code or not (dotted(code[0]) or "").endswith("ResultCode.ACCEPTED"):
                 continue
             n_sites += 1
-            k_acc += 1
-            bad = []
+            bad, bad_atoms = [], set()
             try:
                 paths = sem.paths_to(fi.node, ret)
             except ValueError:
@@ -1202,7 +1201,20 @@ def accepted_means_handed_on(ctx) -> None:
                             handed = True
                 if not handed:
                     bad.append(sorted(a for a in conds if "link_layer" not in a)[-3:])
-            ctx.ob("C01.req-fwd", fi.short(), f"accepted-means-handed-on#{k_acc}", not bad,
+                    bad_atoms |= set(conds)
+                else:
+                    good_atoms |= set(conds)
+            sites.append((ret, bad, bad_atoms))
+        used: set = set()
+        for k_acc, (ret, bad, bad_atoms) in enumerate(sites):
+            # name the site by the calls whose outcome separates the losing paths from every path that does hand the packet on
+            # (an ordinal would shift, and with it the ledger key, whenever a confirmation is added before this one)
+            names = sorted({m_ for a in bad_atoms - good_atoms for m_ in re.findall(r"self\.(?:\w+\.)*(\w+)\(", a)})
+            disc = "+".join(names) if names else f"#{k_acc}"
+            if disc in used:
+                disc = f"{disc}#{k_acc}"
+            used.add(disc)
+            ctx.ob("C01.req-fwd", fi.short(), f"accepted-means-handed-on:{disc}", not bad,
                    "ACCEPTED is answered only after the packet was handed to the link layer or to a buffer that is flushed later" if not bad else
                    f"ACCEPTED is answered on a path that neither sends nor buffers the packet (conditions {bad[0]}): the payload is lost "
                    "although the requester was told it was accepted", f"{fi.module.rel}:{ret.lineno}")
